@@ -161,29 +161,34 @@ class KindAt(str):
 
 class C08(Check):
     ID = "C08"
-    N_QUICK = 150
-    N_THOROUGH = 4000
+    N_QUICK = 120
+    N_THOROUGH = 2500
     SHARD = 12
     RULE = ("real waddrmgr (Create with FastScryptOptions, one of the scopes BIP0084/BIP0044, unlocked) on a real bbolt file behind "
-            "harness/internal/abortdb; 85 systematic histories (every write operation alone in an aborted / dry-run / failed-commit "
-            "transaction, cold and warm caches, followed by a committed issuance; same-transaction patterns) + random histories of 3-8 "
-            "(thorough 3-12) transactions x 1-3 operations, fate commit/caller abort/ErrDryRunRollBack/failed commit, three generator modes "
-            "(wild; aborted transactions hold only issuance+reads = the dry-run scenario; aborted transactions hold only operations "
-            "without eager memory updates). After EVERY transaction the file is copied (DB.Copy), opened with a fresh waddrmgr.Open, and "
-            "both managers answer: AccountProperties/AccountName/LastExternal/LastInternalAddress for every account and the next unused "
-            "number, the imported account, LookupAccount for every name, LastAccount, Address()+Used() for every address issued by a "
-            "committed transaction, the last derived and the next 3 unissued indices per branch, all import candidates, SyncedTo, Birthday, "
-            "BirthdayBlock, BlockHash for recent heights. Compared: per-operation outcomes and both answer columns with the Coq model; "
-            "running vs fresh = the oracle. non-trivial = history holds a rolled-back transaction with a write operation AND a later "
-            "committed transaction; distinct by input")
+            "harness/internal/abortdb; 86 systematic histories (every write operation alone in an aborted / dry-run / failed-commit "
+            "transaction, cold and warm caches, followed by a committed issuance; same-transaction patterns); 12 (thorough 150) histories "
+            "through the real wallet.Wallet on a funded wallet: NewAddress, NewChangeAddress, CreateSimpleTx and CreateSimpleTx(dryRun=true); "
+            "random histories of 3-8 (thorough 3-12) transactions x 1-3 operations, fate commit/caller abort/ErrDryRunRollBack/failed "
+            "commit, three generator modes (wild; aborted transactions hold only issuance+reads = the dry-run scenario; aborted "
+            "transactions hold only operations without eager memory updates). After EVERY transaction the file is copied (DB.Copy), opened "
+            "with a fresh waddrmgr.Open, and both managers answer: AccountProperties/AccountName/LastExternal/LastInternalAddress for every "
+            "account and the next unused number, the imported account, LookupAccount for every name, LastAccount, Address()+Used() for "
+            "every address issued by a committed transaction, the last derived and the next 3 unissued indices per branch, all import "
+            "candidates, SyncedTo, Birthday, BirthdayBlock, BlockHash for recent heights. Compared: per-operation outcomes and both answer "
+            "columns with the Coq model; running vs fresh = the oracle. non-trivial = history holds a rolled-back transaction with a write "
+            "operation AND a later committed transaction; distinct by input")
     ASSUMPTIONS = ["manager stays unlocked; no watch-only accounts; one key scope per history (scoped managers share no cache)",
                    "block time stamps handed to SetSyncedTo lie in [0, 2^32) seconds (the database keeps 32 bits)",
                    "heights/indices far below the int32/uint32 limits; fault-free database (write faults are C10)",
-                   "addresses are identified with their derivation path through a table derived in the harness with hdkeychain"]
+                   "addresses are identified with their derivation path through a table derived in the harness with hdkeychain",
+                   "model parameter rb (does nextAddresses cache the read-back address before commit) = "
+                   "Generated/AddrCache.next_caches_read_back, regenerated from waddrmgr/scoped_manager.go by lib/extract_c08.py; "
+                   "the theorems hold for both values"]
     PARTIAL_CLAUSES = ["the equivalence is proved for histories outside the trigger pattern K (in_K of coq/Addr/MemDisk.v); inside K it is "
                        "refuted by witnesses (C08_refuted_at_K) and the run reports the divergences as findings",
-                       "wallet.CreateSimpleTx(dryRun=true) itself is not driven: its database behaviour (closure returns "
-                       "walletdb.ErrDryRunRollBack after NewChangeAddress) is reproduced on the address manager with the same sentinel"]
+                       "'the next committed request issues the very address a restarted wallet would issue' is proved outside K_idx "
+                       "(aborted extend, aborted new-account read back, extend after next-addresses in one committed transaction) and "
+                       "refuted by witnesses inside"]
 
     def nontrivial(self, c):
         seen_abort_write = False
@@ -272,9 +277,11 @@ Print bad.
 
     def extra_coverage(self, cases):
         k = sum(1 for c in cases if "in_K" in c.get("tags", []))
-        return dict(K="in_K (coq/Addr/MemDisk.v): an aborted transaction holding rename / set-synced-to / set-birthday / extend / import / "
-                      "next-addresses, or new-account followed by Address/LastAddress/AccountProperties; a committed transaction holding "
-                      "extend after next-addresses on the same account and branch, or SetSyncedTo(nil)",
+        return dict(K="in_K rb (coq/Addr/MemDisk.v): an aborted transaction holding rename / set-synced-to / set-birthday / extend / import, "
+                      "or new-account followed by Address/LastAddress/AccountProperties, or next-addresses (rb=true: always; rb=false: when "
+                      "followed by Address); a committed transaction holding extend after next-addresses on the same account and branch, "
+                      "or SetSyncedTo(nil)",
+                    wallet_api_histories=sum(1 for c in cases if c["in"].get("wallet")),
                     histories_in_K=k, histories_outside_K=len(cases) - k,
                     histories_outside_K_with_divergence=sum(1 for c in cases if "outside_K" in c.get("tags", []) and c.get("oracle")),
                     boundaries=sum(len(c["obs"]["txs"]) + 1 for c in cases),
